@@ -58,7 +58,12 @@ impl fmt::Debug for FsWatcherBuilder {
     }
 }
 
-fn id_of_path(id_builder: &mut IdBuilder, root: &Path, path: &Path) -> Option<OwnedDirEntry> {
+fn id_of_path(
+    id_builder: &mut IdBuilder,
+    root: &Path,
+    path: &Path,
+    is_dir: Option<bool>,
+) -> Option<OwnedDirEntry> {
     id_builder.reset();
 
     // The root itself is the directory with the empty id
@@ -79,7 +84,8 @@ fn id_of_path(id_builder: &mut IdBuilder, root: &Path, path: &Path) -> Option<Ow
     id_builder.push(path.file_stem()?.to_str()?)?;
     let id = id_builder.join();
 
-    let entry = if path.is_dir() {
+    // The file system cannot tell what a deleted entry was
+    let entry = if is_dir.unwrap_or_else(|| path.is_dir()) {
         OwnedDirEntry::Directory(id)
     } else {
         let ext = crate::utils::extension_of(path)?.into();
@@ -129,22 +135,32 @@ impl notify::EventHandler for NotifyEventHandler {
                 log::trace!("Received filesystem event: {event:?}");
 
                 for path in event.paths {
-                    let paths = match event.kind {
-                        notify::EventKind::Any | notify::EventKind::Modify(_) => vec![&*path],
-                        notify::EventKind::Create(_) => match path.parent() {
-                            Some(parent) => vec![&path, parent],
-                            None => vec![&*path],
-                        },
-                        notify::EventKind::Remove(_) => match path.parent() {
-                            Some(parent) => vec![parent],
-                            None => vec![],
-                        },
+                    // Whether the listing of the parent directory changed too,
+                    // and what the entry was if it does not exist anymore
+                    let (with_parent, is_dir) = match event.kind {
+                        notify::EventKind::Any | notify::EventKind::Modify(_) => (false, None),
+                        notify::EventKind::Create(_) => (true, None),
+                        notify::EventKind::Remove(notify::event::RemoveKind::File) => {
+                            (true, Some(false))
+                        }
+                        notify::EventKind::Remove(notify::event::RemoveKind::Folder) => {
+                            (true, Some(true))
+                        }
+                        notify::EventKind::Remove(_) => (true, None),
                         notify::EventKind::Access(_) | notify::EventKind::Other => return,
                     };
+                    let mut paths = vec![(&*path, is_dir)];
+                    if with_parent {
+                        if let Some(parent) = path.parent() {
+                            paths.push((parent, Some(true)));
+                        }
+                    }
                     let ids = paths
                         .into_iter()
                         .flat_map(|p| self.roots.iter().map(move |r| (p, r)))
-                        .filter_map(|(path, root)| id_of_path(&mut self.id_builder, root, path));
+                        .filter_map(|((path, is_dir), root)| {
+                            id_of_path(&mut self.id_builder, root, path, is_dir)
+                        });
 
                     if self.events.send_multiple(ids).is_err() {
                         drop(self.watcher.take());
@@ -164,7 +180,7 @@ pub mod verif_hooks {
 
     /// The private `id_of_path`, with a fresh `IdBuilder`.
     pub fn id_of_path(root: &Path, path: &Path) -> Option<OwnedDirEntry> {
-        super::id_of_path(&mut IdBuilder::default(), root, path)
+        super::id_of_path(&mut IdBuilder::default(), root, path, None)
     }
 
     /// The real notify event handler, bound to a given `EventSender`.
